@@ -8,6 +8,7 @@ import (
 
 func TestReplay(t *testing.T) {
 	verif.ReplayMain(map[string]func(){
-		"HarnessAlias": HarnessAlias,
+		"HarnessAlias":    HarnessAlias,
+		"HarnessRawReuse": HarnessRawReuse,
 	})
 }
